@@ -185,6 +185,10 @@ pub struct OpnCase {
     pub keys: u8,
     pub response: bool,
     pub nonce_fill: u8,
+    /// extra bytes appended to the nonce: the chunk layer has to carry an OPN body of any length, and the padding of the
+    /// asymmetric block depends on it (every residue of the plain text block size has to occur)
+    #[serde(default)]
+    pub nonce_extra: u16,
 }
 
 fn asymmetric(ctx: &Ctx, c: &OpnCase) -> PResult {
@@ -192,7 +196,7 @@ fn asymmetric(ctx: &Ctx, c: &OpnCase) -> PResult {
     let mode = if c.mode_encrypt { MessageSecurityMode::SignAndEncrypt } else { MessageSecurityMode::Sign };
     let (ck, sk) = keys_for(policy, c.keys);
     let (client, server) = fixtures::channel_pair(policy, mode, ck, sk, &fixtures::nonce_for(policy, 3), &fixtures::nonce_for(policy, 77));
-    let nonce = ByteString::from(vec![c.nonce_fill; policy.secure_channel_nonce_length()]);
+    let nonce = ByteString::from(vec![c.nonce_fill; policy.secure_channel_nonce_length() + c.nonce_extra as usize]);
     let (from, mut to, msg): (SecureChannel, SecureChannel, SupportedMessage) = if c.response {
         let m = OpenSecureChannelResponse {
             response_header: ResponseHeader::new_good(&RequestHeader::dummy()),
@@ -235,7 +239,7 @@ fn payload_strategy() -> impl Strategy<Value = u32> {
 pub fn def() -> PropDef {
     PropDef {
         id: "C07",
-        rule: "the 11 valid policy x mode pairs (enumerated by index) x chunk size limit {0, 8196, 8197, 8211, 9001, 16384, 65535} x sender role x message (WriteRequest with a patterned byte string steered to 1..6 chunks, sizes drawn around multiples of the per-chunk body size; or a generated message of any service) x key sizes; sender pipeline Chunker::encode -> apply_security, receiver TcpCodec -> verify_and_remove_security -> validate_chunks -> Chunker::decode; plus OpenSecureChannel request/response under every policy with 1024/2048/4096-bit keys; non-trivial = policy != None and >= 2 chunks, or an OPN with a 4096-bit key; distinct = distinct case",
+        rule: "the 11 valid policy x mode pairs (enumerated by index) x chunk size limit {0, 8196, 8197, 8211, 9001, 16384, 65535} x sender role x message (WriteRequest with a patterned byte string steered to 1..6 chunks, sizes drawn around multiples of the per-chunk body size; or a generated message of any service) x key sizes; sender pipeline Chunker::encode -> apply_security, receiver TcpCodec -> verify_and_remove_security -> validate_chunks -> Chunker::decode; plus OpenSecureChannel request/response under every policy with 1024/2048/4096-bit keys and nonces lengthened by 0..519 bytes, and a sweep of 505 consecutive OPN body lengths towards a 4096-bit receiver key (every padding amount); non-trivial = policy != None and >= 2 chunks, or an OPN with a 4096-bit key; distinct = distinct case",
         assumptions: &["keys and certificates are committed fixtures; key selection is generated", "chunk-count minimality is not asserted"],
         abort_possible: false,
         parts: |tier| {
@@ -250,7 +254,23 @@ pub fn def() -> PropDef {
                 part(
                     "asymmetric_opn",
                     tier.pick(150, 4_000),
-                    (0u8..5, any::<bool>(), 0u8..3, any::<bool>(), any::<u8>()).prop_map(|(policy, mode_encrypt, keys, response, nonce_fill)| OpnCase { policy, mode_encrypt, keys, response, nonce_fill }),
+                    (0u8..5, any::<bool>(), 0u8..3, any::<bool>(), any::<u8>(), prop_oneof![2 => Just(0u16), 3 => 0u16..520]).prop_map(|(policy, mode_encrypt, keys, response, nonce_fill, nonce_extra)| OpnCase { policy, mode_encrypt, keys, response, nonce_fill, nonce_extra }),
+                    asymmetric,
+                ),
+                // every padding amount of the asymmetric block: consecutive body lengths over one full plain text block of the
+                // largest receiver key (4096 bit: 470 bytes with OAEP, 501 with PKCS#1)
+                part_enum(
+                    "opn_padding_sweep",
+                    |tier| {
+                        let policies: Vec<u8> = if tier == Tier::Quick { vec![2] } else { vec![0, 1, 2, 3, 4] };
+                        let mut v = Vec::new();
+                        for policy in policies {
+                            for extra in 0u16..505 {
+                                v.push(OpnCase { policy, mode_encrypt: true, keys: 2, response: extra % 2 == 1 && tier == Tier::Thorough, nonce_fill: 0x5a, nonce_extra: extra });
+                            }
+                        }
+                        Box::new(v.into_iter())
+                    },
                     asymmetric,
                 ),
             ]
